@@ -13,7 +13,8 @@ T, OTHER = RT[0], RT[1]
 MATCH_KINDS = ["add_resource(T,'special')", "add_resource_factory(T,'special')", "add_resource([OTHER,T],'special')",
                "alias 'p/special': add_resource(T) with the default name in start()", "falsy value {} as (T,'special')",
                "add_resource_factory(T,'special') with an ASYNC factory",
-               "add_resource_factory(T,'special') with a factory returning an awaitable OBJECT (not a coroutine)"]
+               "add_resource_factory(T,'special') with a factory returning an awaitable OBJECT (not a coroutine)",
+               "add_resource([T,OTHER],'special') - the waited-for type listed FIRST"]
 FILLERS = ["same name, other type", "same type, other name"]
 
 
@@ -49,6 +50,8 @@ def publisher_steps(env, vals, match_kind, pos, fillers, cps):
                     env.ev("factory_called")
                     return _Handle(v)
                 steps.append(("fac", "MATCH", hcb, "special", [T]))
+            elif match_kind == 7:
+                steps.append(("pub", "MATCH", v, "special", [T, OTHER]))
             elif match_kind == 2:
                 steps.append(("pub", "MATCH", v, "special", [OTHER, T]))
             elif match_kind == 3:
@@ -75,7 +78,7 @@ def sched_cfg(tier):
 
 def sched_params(tier):
     D, L = sched_cfg(tier)
-    ps = [P("mk", 0, 6), P("pos", 0, 2), P("cps", 0, 1), P("wphase", 0, 1), P("pphase", 0, 1), P("f0", 0, 1)]
+    ps = [P("mk", 0, 7), P("pos", 0, 2), P("cps", 0, 1), P("wphase", 0, 1), P("pphase", 0, 1), P("f0", 0, 1)]
     if tier != "quick":
         ps += [P("wdelay", 0, 2), P("f1", 0, 1)]
     for j in range(D):
@@ -88,7 +91,7 @@ def sched_params(tier):
 def sched_fn(a, tier):
     D, L = sched_cfg(tier)
     quick = tier == "quick"
-    mk, pos = pick(a["mk"], 7), pick(a["pos"], 3)
+    mk, pos = pick(a["mk"], 8), pick(a["pos"], 3)
     cps, wphase = pick(a["cps"], 2), pick(a["wphase"], 2)
     pphase = 1 if mk == 3 else pick(a["pphase"], 2)  # default-name remapping happens in start() only
     f0 = pick(a["f0"], 2)
